@@ -17,7 +17,7 @@ func vc12_classify() {
 	op := Operation(vsym_i8())
 	// OpCallIndirect inspects its callable operand through reflect: outside the kernel
 	vassume(op != OpCallIndirect)
-	info := map[Addr]InstructionInfo{1: {Path: "p.go", Position: Position{Line: 7, Column: 3, Start: 40, End: 42}}}
+	info := map[Addr]InstructionInfo{0: {Path: "p.go", Position: Position{Line: 7, Column: 3, Start: 40, End: 42}}}
 	vm := &VM{env: &env{}, main: true}
 	vm.fn = &Function{Pkg: "main", Name: "f", Body: []Instruction{{Op: op}, {Op: OpReturn}}, InstructionInfo: info}
 	vm.pc = 1
